@@ -458,6 +458,12 @@ def extract_docstring(node: Str) -> Tuple[int, str]:
         # TODO: remove me when python3.7 is not supported
         value = node.s
     lineno = extract_docstring_linenum(node)
+    try:
+        value.encode('utf-8')
+    except UnicodeEncodeError:
+        # Lone surrogates (written with escapes like '\ud800') can't be written to the 
+        # HTML pages, show them escaped like we do for the values of constants.
+        value = value.encode('utf-8', 'backslashreplace').decode('utf-8')
     return lineno, inspect.cleandoc(value)
 
 
